@@ -303,6 +303,25 @@ void backend () {
         }
 
       /*
+       * Despite the name, this routine takes care of several things.
+       * - Calls heart_beat() functions in all objects that enable it.
+       * - Calls reset() in objects that need it.
+       * - Calls clean_up() in objects that need it.
+       * - Handles call_out() functions.
+       * The heart_beat_flag is set in the heartbeat timer and cleared
+       * when call_heart_beat() is called.
+       *
+       * A tick that has become due is served here, at the top of the round, where the
+       * loop also arrives after an uncaught error. After the user commands, a user whose
+       * commands fail one after the other (every error jumps to the top of the loop)
+       * would keep all heart beats, call_outs and resets waiting for as long as he
+       * goes on. call_heart_beat() clears heart_beat_flag first, so an error in a heart
+       * beat does not bring us back into it.
+       */
+      if (heart_beat_flag)
+        call_heart_beat ();
+
+      /*
        * Grant command processing turns to all connected users.
        * Also count connected users and check for pending commands to optimize timeout.
        */
@@ -355,18 +374,6 @@ void backend () {
        * Loop bounded by connected_users for tighter safety limit.
        */
       for (i = 0; process_user_command () && i < connected_users; i++);
-
-      /*
-       * Despite the name, this routine takes care of several things.
-       * - Calls heart_beat() functions in all objects that enable it.
-       * - Calls reset() in objects that need it.
-       * - Calls clean_up() in objects that need it.
-       * - Handles call_out() functions.
-       * The heart_beat_flag is set in the heartbeat timer and cleared 
-       * when call_heart_beat() is called.
-       */
-      if (heart_beat_flag)
-        call_heart_beat ();
     }
   pop_context (&econ);
 
